@@ -12,7 +12,7 @@
   delete_resource          : (C10 contract) descriptors and streams filtered with the same matcher, dropped streams drained
   iterable_loader / load / sources . process_resources : existing streams first (untouched), new streams appended
 """
-from contracts.common import (Item, mk_resource, mk_package2, resource_desc, run_spec, ghost_row, expect_no_raise_or_same,
+from contracts.common import (same_stream, Item, mk_resource, mk_package2, resource_desc, run_spec, ghost_row, expect_no_raise_or_same,
                               row_transducer, _b, selector, tree_writes_under)
 from contracts import C10 as K10
 from contracts.streams import calls, effect_names
@@ -197,7 +197,7 @@ def sym_concatenate_func(vc):
                         return
                     y = ys[0].obj
                     if mode == 'unselected':
-                        check(it, 'unselected-same-object' + tag, y is r and r.stream.drained is False)
+                        check(it, 'unselected-same-object' + tag, same_stream(it, y, r) and r.stream.drained is False)
                     else:
                         n = env.lookup('num_concatenated')
                         ok = isinstance(y, GenObj) and y.fn.name == 'concatenator'
@@ -301,7 +301,7 @@ def sym_duplicate_func(vc):
                 def s_end(it, env, r, events):
                     ys = yields_of(events)
                     if mode == 'other':
-                        check(it, 'other-stream-same-object' + tag, len(ys) == 1 and ys[0].obj is r and r.stream.drained is False)
+                        check(it, 'other-stream-same-object' + tag, len(ys) == 1 and same_stream(it, ys[0].obj, r) and r.stream.drained is False)
                     else:
                         ok = len(ys) >= 1 and isinstance(ys[0].obj, GenObj) and ys[0].obj.fn.name == 'saver' and \
                             ys[0].obj.args[0] is r and len(dbs_made) >= 1 and ys[0].obj.args[1] is dbs_made[-1]
